@@ -33,6 +33,7 @@ BOUNDS = {"quick": dict(), "thorough": dict()}
 CASE_TIMEOUT = 60
 PRIMES = [3, 5, 7, 11, 13, 17, 19, 23, 29, 31, 37, 41, 43, 47, 53, 59, 61, 67, 71, 73, 79, 83, 89, 97, 101, 103, 107, 109, 113, 127, 131, 137, 139, 149, 151, 157, 163, 167, 173, 179, 181, 191, 193, 197, 199]
 ZERO_ADDRESS = 0x1000_0040
+_LAST_MODULE = [None]  # the module run_convert worked on (for checks that continue lowering it)
 
 # ------------------------------------------------------------------------------------------------ configs
 
@@ -74,6 +75,11 @@ def space(tier):
         for kern in ("mac", "qmac", "qmac_i8", "qmac_rescale1", "qmac_rescaleN", "rescale_only"):
             for var in (0, 1, 2):
                 cases.append(("gemmx", geom, kern, var))
+        # more output channels than the array has columns: the accelerator is launched once per group of n channels, the shift / multiplier
+        # registers are re-programmed in the launch lowering (checked on the CSR machine after convert-accfg-to-csr)
+        if geom == 8:  # convert-accfg-to-csr takes the accelerator from the registry (default geometry)
+            for kern in ("qmac_rescale2N", "qmac_rescale3N", "qmac_rescale4N"):
+                cases.append(("gemmx", geom, kern, 0))
     for chan, byte in itertools.product([True, False], repeat=2):
         subsets = [(), (0,), (5,), (3, 4), tuple(range(7))]
         if tier == "thorough":
@@ -173,6 +179,7 @@ def run_convert(acc, module_text, key, case_j, r):
         return None
     blk = region.parent_block()
     blk.insert_ops_before(ops, region)
+    _LAST_MODULE[0] = mod
     setup = next((o for o in ops if isinstance(o, accfg.SetupOp)), None)
     if setup is None:
         r.rejected = "no-setup"
@@ -282,9 +289,13 @@ def eval_gemmx(r, geom, kern, var):
     acc = GX.SNAXGEMMXAccelerator(GX.default_streamer, m=geom, n=geom, k=geom)
     decl = common.to_text(acc.generate_acc_op())
     sts = list(acc.streamer_config.data.streamers)
-    i8 = kern in ("qmac_i8", "qmac_rescale1", "qmac_rescaleN", "rescale_only")
+    groups = {"qmac_rescale2N": 2, "qmac_rescale3N": 3, "qmac_rescale4N": 4}.get(kern, 0)
+    i8 = kern in ("qmac_i8", "qmac_rescale1", "qmac_rescaleN", "rescale_only") or groups
     # patterns per streamer a, b, d8, c, d32
     pa = marker_pattern(sts[0], 3 + var, 0)
+    if groups:
+        # the number of output tiles must be a multiple of the number of channel groups
+        pa = ([3, 5, groups], pa[1], pa[2])
     pb = marker_pattern(sts[1], 3, 10)
     out_ub = [pa[0][1], pa[0][2]] if var == 0 else [pa[0][1]]
     # output pattern: reduction dim first with stride 0 (reuse), then the non-reduction dims
@@ -301,8 +312,9 @@ def eval_gemmx(r, geom, kern, var):
         pd32 = (list(pout_ub), list(pout_ts), [8, 64])
     zp = (3, -5)
     rs = dict(input_zp=-7, output_zp=9, max_int=127, min_int=-128, shift=[11], mult=[1234567])
-    if kern == "qmac_rescaleN":
-        rs = dict(input_zp=-7, output_zp=9, max_int=100, min_int=-100, shift=[10 + i for i in range(geom)], mult=[1000 + 7 * i for i in range(geom)])
+    if kern == "qmac_rescaleN" or groups:
+        nch = geom * max(groups, 1)
+        rs = dict(input_zp=-7, output_zp=9, max_int=100, min_int=-100, shift=[10 + i for i in range(nch)], mult=[1000 + 7 * i for i in range(nch)])
     otype = "i8" if i8 else "i32"
     extra = ""
     if kern == "rescale_only":
@@ -323,7 +335,7 @@ def eval_gemmx(r, geom, kern, var):
             f'    %g = "dart.generic"({gin}) <{{library_call = "snax_gemmx"}}> ({{\n    ^bb1({bargs}):\n      %k = {kop}\n      dart.yield %k : i32\n'
             f"    }}) : ({gty}) -> !dart.stream<i32>\n"
         )
-        if kern in ("qmac_rescale1", "qmac_rescaleN"):
+        if kern in ("qmac_rescale1", "qmac_rescaleN") or groups:
             body += (
                 f'    %g2 = "dart.generic"(%g) <{{library_call = "snax_gemmx"}}> ({{\n    ^bb2(%f0 : i32, %f1 : i8):\n      %k2 = kernel.rescale %f0 {{input_zp = {rs["input_zp"]} : i32, output_zp = {rs["output_zp"]} : i32, multiplier = array<i32: {", ".join(map(str, rs["mult"]))}>, shift = array<i32: {", ".join(map(str, rs["shift"]))}>, max_int = {rs["max_int"]} : i32, min_int = {rs["min_int"]} : i32, double_round = true}} : (i32) -> i8\n      dart.yield %k2 : i8\n'
                 "    }) : (!dart.stream<i32>) -> !dart.stream<i8>\n    dart.yield %g2 : !dart.stream<i8>\n"
@@ -382,7 +394,7 @@ def eval_gemmx(r, geom, kern, var):
         kexp["bypassSIMD"] = 0
         kexp["temporal_loop_bound"] = steps
         kexp["M"] = steps
-    if kern in ("qmac_rescale1", "qmac_rescaleN", "rescale_only"):
+    if kern in ("qmac_rescale1", "qmac_rescaleN", "rescale_only") or groups:
         kexp["csr0"] = ((rs["min_int"] & 0xFF) << 24) | ((rs["max_int"] & 0xFF) << 16) | ((rs["output_zp"] & 0xFF) << 8) | (rs["input_zp"] & 0xFF)
         # double_round is an i1 attribute: the installed xDSL normalises 'true' to -1, the flag is its lowest bit
         if got.get("csr1", 0) & 1 != 1:
@@ -399,6 +411,78 @@ def eval_gemmx(r, geom, kern, var):
         for i in range(geom):
             kexp[f"mult_{i}"] = mults[i]
     compare(r, key, case_j, names, vals, kexp, f"snax_gemmx n={geom} {kern} kernel registers")
+    if groups and not r.violations:
+        gemmx_launch_level(r, acc, key, case_j, geom, groups, rs, kexp["M"])
+
+
+def gemmx_launch_level(r, acc, key, case_j, geom, groups, rs, m_total):
+    """channel groups: after the real convert-accfg-to-csr the code must launch the streamers once and the array once per group; at the i-th array launch the
+    shift / multiplier registers hold group i's values and M / temporal_loop_bound the per-group tile count; every array launch is awaited"""
+    from machines.csr import CsrMachine
+
+    mod = _LAST_MODULE[0]
+    # the real convert-linalg-to-accfg replaces the streaming region by the accelerator ops; run_convert inserted them in front of it
+    for op in list(mod.walk()):
+        if op.name == "snax_stream.streaming_region":
+            op.detach()
+            op.erase()
+    try:
+        common.run_pipeline(mod, "convert-accfg-to-csr")
+    except Exception as e:
+        r.count("launch_level_rejected:" + type(e).__name__ + ":" + str(e)[:60])
+        return
+    decl = acc.generate_acc_op()
+    addr = {k: v.value.data for k, v in decl.field_items()}
+    laddr = {k: v.value.data for k, v in decl.launch_field_items()}
+    barrier = decl.barrier.value.data
+    cm = CsrMachine(poll=lambda a: 0)
+    h = dict(cm.handlers())
+    h["snax_stream.streaming_region"] = lambda it, op: []
+    it = Interp(handlers=h, budget=50000)
+    f = find_func(mod, "f")
+    try:
+        it.run_func(f, [0x1000 * (i + 1) + 0x40000 for i in range(len(f.body.block.args))])
+    except (UseBeforeDef, InterpError) as e:
+        r.violate(key + "|launch-exec", case_j, f"lowered launch code cannot be executed: {e}")
+        return
+    r.count("launch_level_checked")
+    regs, launches, streamer_launches, awaited = {}, [], 0, 0
+    for ev in cm.events:
+        r.transitions += 1
+        if ev[0] == "w":
+            if ev[1] == laddr["launch_gemmx"]:
+                launches.append(dict(regs))
+            elif ev[1] == laddr["launch_streamer"]:
+                if launches:
+                    r.violate(key + "|launch-order", case_j, "the streamers are launched after the first array launch")
+                    return
+                streamer_launches += 1
+            else:
+                regs[ev[1]] = ev[2]
+        elif ev[0] == "r" and ev[1] == barrier and ev[2] == 0 and len(launches) > awaited:
+            awaited = len(launches)
+    bad = None
+    if len(launches) != groups:
+        bad = f"{len(launches)} array launches for {groups} channel groups"
+    elif streamer_launches != 1:
+        bad = f"{streamer_launches} streamer launches"
+    elif awaited != groups:
+        bad = f"only {awaited} of {groups} array launches are followed by an await"
+    else:
+        for i, snap in enumerate(launches):
+            sh, mu = rs["shift"][i * geom : (i + 1) * geom], rs["mult"][i * geom : (i + 1) * geom]
+            want = {f"mult_{j}": mu[j] for j in range(geom)}
+            for j in range(0, geom, 4):
+                want[f"shift_{j // 4}"] = sum((x & 0xFF) << (8 * k) for k, x in enumerate(sh[j : j + 4]))
+            want["M"] = want["temporal_loop_bound"] = m_total // groups
+            for name, v in want.items():
+                if wrap(snap.get(addr[name], None) or 0, 32) != wrap(v, 32):
+                    bad = f"at array launch {i} register {name} holds {snap.get(addr[name])} but group {i} needs {v}"
+                    break
+            if bad:
+                break
+    if bad:
+        r.violate(key + "|launch-groups", case_j, f"snax_gemmx n={geom}, {groups} channel groups: {bad}")
 
 
 # ------------------------------------------------------------------------------------------------ xdma
